@@ -206,7 +206,7 @@ def gen_times(rng, n, mode, horizon=None):
 
 def valid_workloads(case):
     """A minimised case must stay inside the property's quantifier: packet sizes >= 1 byte, instants >= 0."""
-    for key in ('workload', 'workload2'):
+    for key in ('workload', 'workload2', 'workload_b'):
         for x in case.get(key, []) or []:
             if len(x) < 3 or x[2] < 1 or x[0] < 0:
                 return False
